@@ -56,7 +56,7 @@ def c14b(F, R):
     allowed = _is_register_impl_fn(F)
     n_allowed = 0
     for p, f in sorted(F.fns.items()):
-        if "hir" not in f or not p.startswith("riscv_analysis"):
+        if "hir" not in f or not f["crate"].startswith("riscv_analysis") or (f.get("exp") or "").startswith("Derive"):
             continue
         root = p
         mentions = {}
